@@ -110,6 +110,18 @@ def gen_iface(g, k):
         p['async'] = r.random() < 0.3
         p['doc'] = r.choice(DOCS) if r.random() < 0.4 else None
         I.props.append(p)
+    # by construction (one program per quick run must not depend on luck for these): the first two
+    # interfaces carry readable and writable properties crossing setter receiver x sync/async x
+    # emits mode, and share a property name
+    gallery = {
+        0: [('g0_cell', 'true', True, False, False), ('g1_cell', 'invalidates', True, True, True), ('g2_plain', 'true', False, True, False),
+            ('g_common', 'true', False, False, False)],
+        1: [('g_common', 'true', True, False, False), ('g3_plain', 'invalidates', False, False, True)],
+    }
+    for fn, emits, interior, is_async, rejects in gallery.get(k, []):
+        t = g.field_type(budget=40, val_only=True)
+        I.props.append({'fn': fn, 'member': pascal(fn), 'ty': t, 'emits': emits, 'read': True, 'write': True, 'rejects': rejects,
+                        'getter_fallible': False, 'interior': interior, 'async': is_async, 'doc': None})
     return I
 
 
